@@ -65,8 +65,9 @@ impl Out {
     }
     pub fn write(&self, dir: &Path) {
         fs::create_dir_all(dir).unwrap();
-        fs::write(dir.join("cases.txt"), self.cases.join("\n") + "\n").unwrap();
-        fs::write(dir.join("impl.txt"), self.impls.join("\n") + "\n").unwrap();
+        let nl = if self.cases.is_empty() { "" } else { "\n" };
+        fs::write(dir.join("cases.txt"), self.cases.join("\n") + nl).unwrap();
+        fs::write(dir.join("impl.txt"), self.impls.join("\n") + nl).unwrap();
         let fails: Vec<J> = self
             .failures
             .iter()
